@@ -62,8 +62,42 @@ pub fn parse(toks: &[Tok]) -> PResult<OutFile> {
                 c.expect_punct(":")?;
                 c.ident()?;
                 c.expect_punct("=>")?;
-                c.balanced("{", "}")?;
+                let body = c.balanced("{", "}")?;
                 c.expect_punct(";")?;
+                if name == "ReviverFunc" {
+                    // the key filter: every `key === ` compares with exactly one string literal and is followed by
+                    // `||`, `&&` or `)`; the literals are the wire keys the reviver turns into Date
+                    let mut keys = Vec::new();
+                    let mut bad: Option<String> = None;
+                    for i in 0..body.len() {
+                        if !(body[i].k == K::Ident && body[i].text == "key") || (i > 0 && body[i - 1].k == K::Punct && body[i - 1].text == ".") {
+                            continue;
+                        }
+                        let mut j = i + 1;
+                        let mut op = String::new();
+                        while j < body.len() && body[j].k == K::Punct && (body[j].text == "==" || body[j].text == "=") && op.len() < 3 {
+                            op.push_str(&body[j].text);
+                            j += 1;
+                        }
+                        if op != "===" {
+                            continue;
+                        }
+                        match body.get(j) {
+                            Some(t) if t.k == K::Str => {
+                                keys.push(t.text.clone());
+                                match body.get(j + 1) {
+                                    Some(n) if n.k == K::Punct && ["||", "&&", ")"].contains(&n.text.as_str()) => {}
+                                    other => bad = Some(format!("ReviverFunc: the comparison `key === {:?}` is followed by `{}`, not by `||`, `&&` or `)`", t.text, other.map(|t| t.text.as_str()).unwrap_or("<end>"))),
+                                }
+                            }
+                            other => bad = Some(format!("ReviverFunc: `key ===` is followed by `{}`, not by a string literal", other.map(|t| t.text.as_str()).unwrap_or("<end>"))),
+                        }
+                    }
+                    if let Some(b) = bad {
+                        return c.err(b);
+                    }
+                    of.reviver_keys = Some(keys);
+                }
                 of.helper_defs.push(name);
                 continue;
             }
